@@ -165,7 +165,8 @@ def handle_failed(run, ob, r, baseline, per_fn):
         json.dump(rp, open(path, 'w'), indent=1)
         if out.get('reproduced'):
             reproduced = True
-            run.violations.append({'fid': ob.fid, 'clause': ob.clause, 'kind': ob.kind,
+            run.violations.append({'fid': ob.fid, 'clause': native_clause(out.get('detail', ''), ob.clause),
+                                   'kind': ob.kind, 'obligation': ob.clause,
                                    'replay': path, 'note': out.get('detail', ''), 'input': True})
             return
     # bounded search on the real function for a concrete failing input
@@ -177,7 +178,8 @@ def handle_failed(run, ob, r, baseline, per_fn):
             rp2['inputs'] = out['fail']['inputs']
             rp2['native'] = out['fail']
             json.dump(rp2, open(path, 'w'), indent=1)
-            run.violations.append({'fid': ob.fid, 'clause': ob.clause, 'kind': ob.kind,
+            run.violations.append({'fid': ob.fid, 'clause': native_clause(out['fail']['detail'], ob.clause),
+                                   'kind': ob.kind, 'obligation': ob.clause,
                                    'replay': path, 'note': out['fail']['detail'], 'input': True})
             return
     base = baseline.get(ob.fid)
@@ -194,6 +196,14 @@ def handle_failed(run, ob, r, baseline, per_fn):
         run.violations.append({'fid': ob.fid, 'clause': ob.clause, 'kind': ob.kind, 'replay': path,
                                'note': f'obligation `{ob.label}` (line {ob.lineno}) no longer '
                                        f'discharges: {r["status"]} {r["reason"]}', 'input': False})
+
+
+def native_clause(detail, default):
+    """the contract clause that the real code violates natively (key of a finding)"""
+    for pre in ('postcondition fails: ', 'raised ', 'unexpected exception ', 'returned normally although '):
+        if detail.startswith(pre):
+            return detail[len(pre):] if pre == 'postcondition fails: ' else detail
+    return default
 
 
 def jsonable(v):
@@ -220,7 +230,7 @@ def run_bounded(run, cfg):
             path = run.replay_path('bounded')
             json.dump({'property': run.pid, 'sidecar': sidecar, 'fid': fid, 'kind': 'bounded',
                        'inputs': out['fail']['inputs'], 'native': out['fail']}, open(path, 'w'), indent=1)
-            run.violations.append({'fid': fid, 'clause': out['fail']['detail'], 'kind': 'bounded',
+            run.violations.append({'fid': fid, 'clause': native_clause(out['fail']['detail'], ''), 'kind': 'bounded',
                                    'replay': path, 'note': out['fail']['detail'], 'input': True})
     for item in cfg.get('custom', []):
         # custom native/bounded checks: module function returning a dict like the bounded runner
@@ -235,14 +245,21 @@ def run_bounded(run, cfg):
 def apply_known(run):
     known = load_json(KNOWN, {'known': [], 'fixed': []})
     remaining = []
+    seen = set()
+    uniq = []
+    for v in run.violations:
+        key = (v['fid'], v['clause'], v['input'])
+        if key not in seen:
+            seen.add(key)
+            uniq.append(v)
+    run.violations = uniq
     for v in run.violations:
         hit = None
         for k in known.get('known', []):
             if k['property'] != run.pid:
                 continue
             m = k['match']
-            if m.get('fid') == v['fid'] and (m.get('clause') is None or m.get('clause') == v['clause']) \
-                    and (m.get('kind') is None or m.get('kind') == v['kind']):
+            if m.get('fid') == v['fid'] and m.get('clause') == v['clause'] and v['input']:
                 hit = k
                 break
         if hit:
